@@ -1,6 +1,7 @@
 import D2P.Props.C02Body
 import D2P.Props.C02Stray
 import D2P.Props.C06Noise
+import D2P.Proofs.Queued
 /-!
 # C02 — a body of paragraphs, tables AND inline content outside paragraphs: everything in document order
 
@@ -406,5 +407,22 @@ theorem C02_document (cfg : PartCfg) (num : Dict Str (List NumAttr)) (c : Bool) 
   refine ⟨outs, hmatch, ?_⟩
   rw [finish_leaves cfg b3 dc hq5 hfin3 hf, hl3]
   simp [leavesP, leafParsL]
+
+/-- **… with every hypothesis decidable**: a part without notes (`noNotes`: nothing is dispatched to the
+footnote / endnote handlers, so nothing is ever queued — `walk_noq`) whose root is a wrapper and whose
+children satisfy `itemsOK` -/
+theorem C02_part_decidable (cfg : PartCfg) (num : Dict Str (List NumAttr)) (c : Bool) (dc : DC)
+    (i : Nat) (pf : Option Str) (t : QName) (m : NsMap) (a : List (QName × Str)) (tx tl : Option Str) (ks : List Xml)
+    (hm : wrapperTag (Xml.elem i pf t m a tx tl ks).ptag) (hok : itemsOK ks = true)
+    (hn : noNotes (.elem i pf t m a tx tl ks) = true)
+    (h : newDepthCollector cfg num (.elem i pf t m a tx tl ks) c = .ok dc) :
+    ∃ outs, ItemsMatch cfg (itemsOf ks) outs ∧ leafParsL dc.root = outs.flatMap (ioLeaves cfg.dup) :=
+  C02_part cfg num c dc i pf t m a tx tl ks hm hok
+    (fun s5 hw => walk_noq cfg num _ hn c _ s5 (show NoQ ({ bullets := { numAttrs := num } } : DC) from rfl) hw) h
+
+/-- decidable, evaluated by the driver: `C02_part_decidable` / `C02_document` apply to this part -/
+def partItemsOK (root : Xml) : Bool :=
+  itemsOK (bodyKids root) && noNotes root &&
+  (match tagMember root.ptag with | none => true | some "BODY" => true | some "DOCUMENT" => true | _ => false)
 
 end D2P
